@@ -34,8 +34,8 @@ type Ver struct {
 	JunkVal model.Bytes `json:"junk_val,omitempty"`
 	// FV: format version of the snapshot this incoming version arrives in (0 = the case's default);
 	// versions of one key may arrive in snapshots of different format versions
-	FV uint32 `json:"fv,omitempty"`
-	Ext    int  `json:"ext,omitempty"`    // extension blocks (stored versions only)
+	FV  uint32 `json:"fv,omitempty"`
+	Ext int    `json:"ext,omitempty"` // extension blocks (stored versions only)
 }
 
 func (v Ver) String() string {
@@ -520,11 +520,11 @@ func TestC02Merge(t *testing.T) {
 // ---- through strategy.Update on a real DBI -----------------------------------
 
 type C02Upd struct {
-	Keys    []model.Bytes `json:"keys"`
-	Stored  []*Ver        `json:"stored"`  // per key, nil = absent
-	Snaps   [][]*Ver      `json:"snaps"`   // snapshot -> per key version or nil
-	FV      uint32        `json:"fv"`
-	Cutoff  uint64        `json:"cutoff"`
+	Keys   []model.Bytes `json:"keys"`
+	Stored []*Ver        `json:"stored"` // per key, nil = absent
+	Snaps  [][]*Ver      `json:"snaps"`  // snapshot -> per key version or nil
+	FV     uint32        `json:"fv"`
+	Cutoff uint64        `json:"cutoff"`
 }
 
 func runUpdates(c C02Upd, order []int) (map[string]Ver, []bool, error) {
